@@ -29,6 +29,10 @@ def variants_for(msg, asn4):
     if 2 in codes:
         out.append(('aspath-split', asn4, False, {'split_aspath': 1}, msg))
         out.append(('aspath-split2', asn4, False, {'split_aspath': 2}, msg))
+    mp = (msg.get('attr') or {}).get(14)
+    if isinstance(mp, dict) and tuple(mp.get('afi_safi', ()))[1:] in ((4,), (128,)):
+        # labeled families: traffic-class bits set in every label entry (RFC 8277 2.2: ignored on receipt)
+        out.append(('label-tc-bits', asn4, False, {'label_tc': 7}, msg))
     out.append(('other-as-width', not asn4, False, None, msg))
     out.append(('add-path', asn4, True, {'path_id': 7}, msg))
     out.append(('add-path-ipv4', asn4, [(1, 1)], {'path_id': 4294967295}, msg))
@@ -260,7 +264,7 @@ def run(tier, seed):
         'rule': 'valid half: every case of the C06 and C07 pools encoded by the reference encoder plain and with each variant alone '
                 '(extended-length flag on every attribute, trailing bits in IPv4 prefixes, attribute order reversed / rotated, AS_PATH '
                 'split into 1- and 2-AS segments, the other AS width, add-path identifiers for all families / IPv4 only, AS4_PATH + '
-                'AS4_AGGREGATOR present), all combinations of the switches with all permutations of 5 attributes on 3 representative '
+                'AS4_AGGREGATOR present, traffic-class bits set in the label entries of labeled / VPN routes), all combinations of the switches with all permutations of 5 attributes on 3 representative '
                 'messages; error half: ORIGIN in {3,255}, prefix length in {33,255} (NLRI and withdrawn), AS_PATH segment type in {0,5,255}, '
                 'every wrong length 0..8 of each fixed-length attribute, also through dataReceived. distinct = (family, variant, outcome)',
         'samples': [{'family': c[0], 'class_vector': list(c[1]), 'msg': c[2], 'asn4': c[3], 'variants': [v[0] for v in variants_for(c[2], c[3])]}
